@@ -21,7 +21,10 @@ class SimWriter:
         self.path = path
         self.name = path
         self.text = text
-        self.encoding = "utf-8" if encoding in (None, "locale") else encoding
+        # a text file opened without an encoding gets the process default
+        # (the locale's), which the simulation owns like any other setting
+        self.encoding = fs.default_encoding if encoding in (None, "locale") \
+            else encoding
         self.mode = "w" if text else "wb"
         self.buf = bytearray()
         self.dead = False
@@ -172,6 +175,8 @@ class SimReader:
 
 
 class SimFS:
+    default_encoding = "utf-8"
+
     def __init__(self, sim, ctx, root, bufsize):
         self.sim = sim
         self.ctx = ctx
@@ -248,6 +253,8 @@ class SimFS:
         if m in ("w", "bw"):
             return SimWriter(self, p, "b" not in mode, encoding, self.sim.me())
         if m in ("r", "br"):
+            if "b" not in mode and encoding in (None, "locale"):
+                encoding = self.default_encoding
             f = self._real_io_open(p, mode, buffering, encoding, errors,
                                    newline)
             return SimReader(self, p, f)
